@@ -205,6 +205,25 @@ CHECKS.update({
         'DESIGN.md section 4 C11'),
 })
 
+CHECKS.update({
+    'C16': (
+        'Coq proof (int32 / length-prefixed string codes, injectivity of the per-variable encoding and of the whole stream for equal ranks; single-edit corollaries) + byte-exact vm_compute correspondence',
+        'Theorems C16_* prove that the byte stream fed to the hash (per geometry variable: length-prefixed name and dtype '
+        'name, int32 size and shape, raw C-order bytes, marshal version, attribute count, length-prefixed attribute bytes; '
+        'then module, class and version) determines every geometry variable and the convention whenever the inventories have '
+        'the same ranks, hence that any single edit of a name, dtype, same-rank shape, value or attribute byte, or of the '
+        'convention, changes the stream.  Per run the exact stream is captured with a recording hash object and compared byte '
+        'for byte with the model evaluated in Coq on an independent reading of the geometry variables; non-geometry edits '
+        '(data variables, global attributes, time steps, Fortran memory layout) must leave it unchanged, each listed geometry '
+        'edit must change it, the inventory is compared with the generator\'s knowledge of the geometry variables, and keys '
+        'of files are recomputed in fresh interpreters with PYTHONHASHSEED 0 / 1 / random.',
+        'Trusted: Coq kernel; model CacheKey.v (ASCII names).  PARTIAL: key inequality additionally needs BLAKE2b collision '
+        'resistance; attribute serialisation is CPython marshal (its dependence on object state is the recorded known finding '
+        'cache-key-marshal-object-state); the rank is not length-prefixed, so simultaneous edits of rank, data and attribute '
+        'bytes are outside what is proved.',
+        'DESIGN.md section 4 C16'),
+})
+
 NOT_YET = 'check not built yet in this session (work in progress; the design in DESIGN.md section 4 applies)'
 
 
